@@ -34,7 +34,11 @@ def gen_real_case(rng, codes):
         t = rng.choice(tids)
         e, q = progs[t][pos[t]]
         pos[t] += 1
-        events.append([i, t, e, q, P.real_args(rng)])
+        args = P.real_args(rng)
+        strings = {c[0] for c in codes if c[1] and c[1].startswith('TRACE_STRING')}   # their words are text: bytes < 0x80
+        if e not in strings and rng.random() < 0.3:    # a word that NAMES a thread of the stream (thread-terminate reads it)
+            args[rng.choice([0, 0, 1])] = rng.choice(tids)
+        events.append([i, t, e, q, args])
     return {'codes': codes, 'events': events, 'style': 'real-' + style}
 
 
@@ -127,7 +131,35 @@ RULE_PAIRING = ('11 hand-written shapes + seeded histories (0..40 events, thorou
                 'the gate; non-trivial = histories that deliver at least one multi-event window')
 
 
+def window_table_references():
+    """The model's decoders cannot touch the window tables; the code's must not either: every mention of
+    on_going_events / on_going_traces outside traces_parser.py."""
+    import ast
+    import os
+    from .. import core
+    hits = []
+    root = os.path.join(core.REPO, 'pykdebugparser')
+    for dp, _dn, fns in os.walk(root):
+        for fn in fns:
+            if not fn.endswith('.py') or fn == 'traces_parser.py':
+                continue
+            path = os.path.join(dp, fn)
+            with open(path) as fd:
+                tree = ast.parse(fd.read())
+            for node in ast.walk(tree):
+                if isinstance(node, ast.Attribute) and node.attr in ('on_going_events', 'on_going_traces'):
+                    hits.append('%s:%d .%s' % (os.path.relpath(path, core.REPO), node.lineno, node.attr))
+                elif isinstance(node, ast.Constant) and node.value in ('on_going_events', 'on_going_traces'):
+                    hits.append('%s:%d %r' % (os.path.relpath(path, core.REPO), node.lineno, node.value))
+    return hits
+
+
 def correspondence(rep, rng, tier):
+    hits = window_table_references()
+    rep.notes.append('window tables are referenced only in traces_parser.py: %s' % (not hits))
+    if hits:
+        rep.broken.append('assumption: code outside traces_parser.py references the window tables (%s); the model\'s decoders '
+                          'cannot' % '; '.join(hits[:4]))
     kind = lambda c, got: c['style']  # noqa: E731
     nontriv = lambda c, got: got.startswith('ok') and P.has_multi_window(got)  # noqa: E731
     chunks = [(6000, 40)] if tier == 'quick' else [(10000, 40)] * 9 + [(3000, 120)]
@@ -153,8 +185,9 @@ def correspondence(rep, rng, tier):
                 line_fn=lambda c: P.line('pairg', c), impl_fn=impl_real, oracle_fn=P.oracle_per_event,
                 nontrivial_fn=nontriv, kind_fn=kind,
                 rule='real handlers (BSC_read, BSC_write, BSC_getpid, MACH_SCHED, TRACE_DATA_EXEC, '
-                     'TRACE_STRING_PROC_EXIT looked up by name in default_trace_codes(), plus KTrap_Debug = known '
-                     'but undecoded and one unknown id) on in-domain argument words; compared: trace.ktraces '
+                     'TRACE_STRING_PROC_EXIT, TRACE_DATA_THREAD_TERMINATE looked up by name in default_trace_codes(), plus KTrap_Debug = known '
+                     'but undecoded and one unknown id) on in-domain argument words, three in ten records with a word '
+                     'equal to a thread id of the stream; compared: trace.ktraces '
                      'timestamps per event')
     P.shrink_failures(rep, 'real', impl_real, P.oracle_per_event, lambda c: P.line('pairg', c))
 
